@@ -108,6 +108,11 @@ ares_bool_t ares_dns_rec_type_isvalid(ares_dns_rec_type_t type,
     default:
       break;
   }
+  /* Any other type is valid in a question as long as it is a type at all:
+   * the field is 16 bits wide */
+  if ((unsigned int)type > 0xFFFF) {
+    return ARES_FALSE;
+  }
   return is_query ? ARES_TRUE : ARES_FALSE;
 }
 
